@@ -265,10 +265,15 @@ Ltac sub_iff :=
       rewrite H1, H2; reflexivity
   end.
 
+Ltac inv_side :=
+  first [ lia | reflexivity | discriminate | (right; reflexivity) | (left; reflexivity)
+        | (intros [?|?]; first [discriminate | auto]) ].
+
 Ltac new_inv fp' bp' :=
   split; [exists fp', bp'; cbn [k1 k2 s1 s2 sigok taskCount inflight send_next];
           repeat match goal with |- _ /\ _ => split end
-         | unfold measure, send_next; cbn [k1 k2 taskCount]; lia].
+         | unfold measure, send_next; cbn [k1 k2 taskCount]; try lia];
+  try solve [inv_side].
 
 Lemma body_fwd a1 a2 b1 b2 tc infl (bp : bool) kk ss :
   a1 < a2 -> a2 < length keys -> b1 < b2 -> b2 < length sigs ->
@@ -293,11 +298,398 @@ Proof.
     by (apply sub_length; destruct bp; simpl; lia).
   unfold loop_body; cbn [k1 k2 s1 s2 sigok taskCount].
   replace (b1 =? b2) with false by lia. cbn [negb].
+  assert (Hdone_true : verify kk ss = true -> b2 - b1 - off bp = 0 -> (true = true <-> matching keys sigs)).
+  { intros Hv H0. split; [intros _|reflexivity]. rewrite HM, Hrk, Hrs, matching_use_iff by assumption.
+    rewrite H0 in *. rewrite sub_zero. apply m_nil. }
+  assert (Hfalse_use : verify kk ss = true -> a2 - a1 - off bp < b2 - b1 - off bp ->
+                       (false = true <-> matching keys sigs)).
+  { intros Hv Hlt. split; [discriminate|]. rewrite HM, Hrk, Hrs, matching_use_iff by assumption.
+    intros H; apply matching_length in H. rewrite Hlk, Hls in H. lia. }
+  assert (Hfalse_skip : verify kk ss = false -> a2 - a1 - off bp < 1 + (b2 - b1 - off bp) ->
+                       (false = true <-> matching keys sigs)).
+  { intros Hv Hlt. split; [discriminate|]. rewrite HM, Hrk, Hrs, matching_skip_iff by assumption.
+    intros H; apply matching_length in H. simpl length in H. rewrite Hlk, Hls in H. lia. }
   destruct (a1 + 1 =? a2) eqn:Ek.
-  - (* last two keys *)
-    Show.
-Abort.
+  - (* the last two keys: sigok = r.ok && s1+1 == s2 *)
+    destruct (verify kk ss) eqn:Hv; [destruct (b1 + 1 =? b2) eqn:Es|]; cbn [andb].
+    + destruct bp; subst tc; cbn [Nat.add Nat.sub Nat.eqb negb andb post].
+      * (* continue: wait for the backward result *)
+        new_inv false true.
+        rewrite HM, Hrk, Hrs, matching_use_iff by assumption. sub_iff.
+      * apply Hdone_true; [reflexivity | simpl; lia].
+    + rewrite andb_false_r. cbn [post]. apply Hfalse_use; [reflexivity|].
+      destruct bp; simpl; [lia | specialize (Hbp eq_refl); lia].
+    + rewrite andb_false_r. cbn [post]. apply Hfalse_skip; [reflexivity|]. destruct bp; simpl; lia.
+  - destruct (verify kk ss) eqn:Hv; [destruct (b1 + 1 =? b2) eqn:Es|].
+    + destruct bp; subst tc; cbn [Nat.add Nat.sub Nat.eqb negb andb post].
+      * (* continue: this signature was the last one of the forward direction *)
+        new_inv false true.
+        rewrite HM, Hrk, Hrs, matching_use_iff by assumption. sub_iff.
+      * apply Hdone_true; [reflexivity | simpl; lia].
+    + (* s1++ ; k1++ ; send *)
+      destruct bp; [|specialize (Hbp eq_refl); lia]. subst tc. cbn [post].
+      new_inv true true.
+      rewrite HM, Hrk, Hrs, matching_use_iff by assumption. sub_iff.
+    + (* k1++ ; send *)
+      cbn [post]. new_inv true bp.
+      * rewrite app_length. subst tc. destruct bp; simpl; lia.
+      * rewrite HM, Hrk, Hrs, matching_skip_iff by assumption. rewrite <- Hrs. sub_iff.
+Qed.
+
+(* the mirror image: the result of the backward task (k2, s2) is received *)
+Lemma body_bwd a1 a2 b1 b2 tc infl (fp : bool) kk ss :
+  a1 < a2 -> a2 < length keys -> b1 < b2 -> b2 < length sigs ->
+  nth_error keys a2 = Some kk -> nth_error sigs b2 = Some ss ->
+  tc = 1 + (if fp then 1 else 0) ->
+  (fp = false -> b1 + 1 = b2) ->
+  (matching keys sigs <->
+     matching (sub keys (a1 + off fp) (a2 + 1 - a1 - off fp)) (sub sigs (b1 + off fp) (b2 + 1 - b1 - off fp))) ->
+  post (a2 - a1 + tc)
+       (loop_body (mk_pstate a1 a2 b1 b2 true tc infl) (if fp then [(a1, b1)] else []) b2 (verify kk ss)).
+Proof.
+  intros Ha Ha2 Hb Hb2 Hkk Hss Htc Hfp HM.
+  assert (Hrk : sub keys (a1 + off fp) (a2 + 1 - a1 - off fp) = sub keys (a1 + off fp) (a2 - a1 - off fp) ++ [kk]).
+  { replace (a2 + 1 - a1 - off fp) with (S (a2 - a1 - off fp)) by (destruct fp; simpl; lia).
+    apply sub_snoc. replace (a1 + off fp + (a2 - a1 - off fp)) with a2 by (destruct fp; simpl; lia). exact Hkk. }
+  assert (Hrs : sub sigs (b1 + off fp) (b2 + 1 - b1 - off fp) = sub sigs (b1 + off fp) (b2 - b1 - off fp) ++ [ss]).
+  { replace (b2 + 1 - b1 - off fp) with (S (b2 - b1 - off fp))
+      by (destruct fp; simpl; [lia|specialize (Hfp eq_refl); lia]).
+    apply sub_snoc. replace (b1 + off fp + (b2 - b1 - off fp)) with b2 by (destruct fp; simpl; lia). exact Hss. }
+  assert (Hlk : length (sub keys (a1 + off fp) (a2 - a1 - off fp)) = a2 - a1 - off fp)
+    by (apply sub_length; destruct fp; simpl; lia).
+  assert (Hls : length (sub sigs (b1 + off fp) (b2 - b1 - off fp)) = b2 - b1 - off fp)
+    by (apply sub_length; destruct fp; simpl; lia).
+  unfold loop_body; cbn [k1 k2 s1 s2 sigok taskCount].
+  rewrite Nat.eqb_refl. cbn [negb].
+  assert (Hdone_true : verify kk ss = true -> b2 - b1 - off fp = 0 -> (true = true <-> matching keys sigs)).
+  { intros Hv H0. split; [intros _|reflexivity]. rewrite HM, Hrk, Hrs, matching_use_iff_r by assumption.
+    rewrite H0 in *. rewrite sub_zero. apply m_nil. }
+  assert (Hfalse_use : verify kk ss = true -> a2 - a1 - off fp < b2 - b1 - off fp ->
+                       (false = true <-> matching keys sigs)).
+  { intros Hv Hlt. split; [discriminate|]. rewrite HM, Hrk, Hrs, matching_use_iff_r by assumption.
+    intros H; apply matching_length in H. rewrite Hlk, Hls in H. lia. }
+  assert (Hfalse_skip : verify kk ss = false -> a2 - a1 - off fp < 1 + (b2 - b1 - off fp) ->
+                       (false = true <-> matching keys sigs)).
+  { intros Hv Hlt. split; [discriminate|]. rewrite HM, Hrk, Hrs, matching_skip_iff_r by assumption.
+    intros H; apply matching_length in H. rewrite app_length in H. simpl length in H.
+    rewrite Hlk, Hls in H. lia. }
+  destruct (a1 + 1 =? a2) eqn:Ek.
+  - (* the last two keys: sigok = r.ok && s1+1 == s2 *)
+    destruct (verify kk ss) eqn:Hv; [destruct (b1 + 1 =? b2) eqn:Es|]; cbn [andb].
+    + destruct fp; subst tc; cbn [Nat.add Nat.sub Nat.eqb negb andb post].
+      * (* continue: wait for the forward result *)
+        new_inv true false.
+        rewrite HM, Hrk, Hrs, matching_use_iff_r by assumption. sub_iff.
+      * apply Hdone_true; [reflexivity | simpl; lia].
+    + rewrite andb_false_r. cbn [post]. apply Hfalse_use; [reflexivity|].
+      destruct fp; simpl; [lia | specialize (Hfp eq_refl); lia].
+    + rewrite andb_false_r. cbn [post]. apply Hfalse_skip; [reflexivity|]. destruct fp; simpl; lia.
+  - destruct (verify kk ss) eqn:Hv; [destruct (b1 + 1 =? b2) eqn:Es|].
+    + destruct fp; subst tc; cbn [Nat.add Nat.sub Nat.eqb negb andb post].
+      * (* continue: this signature was the last one of the backward direction *)
+        new_inv true false.
+        rewrite HM, Hrk, Hrs, matching_use_iff_r by assumption. sub_iff.
+      * apply Hdone_true; [reflexivity | simpl; lia].
+    + (* s2-- ; k2-- ; send *)
+      destruct fp; [|specialize (Hfp eq_refl); lia]. subst tc. cbn [post].
+      new_inv true true.
+      rewrite HM, Hrk, Hrs, matching_use_iff_r by assumption. sub_iff.
+    + (* k2-- ; send *)
+      cbn [post]. new_inv fp true.
+      * rewrite app_length. subst tc. destruct fp; simpl; lia.
+      * rewrite HM, Hrk, Hrs, matching_skip_iff_r by assumption. rewrite <- Hrs. sub_iff.
+Qed.
+
+(* every enabled delivery from a state satisfying the invariant: no crash, invariant kept, measure decreases by
+   one, and a final answer is the right one *)
+Lemma deliver_post st j t :
+  inv st -> nth_error (inflight st) j = Some t ->
+  exists o, deliver verify keys sigs j st = Some o /\ post (measure st) o.
+Proof.
+  intros (fp & bp & Hk & Hk2 & Hs & Hs2 & Hok & Htc & Hsh & Hfb & Hadj & HM) Hj.
+  destruct st as [a1 a2 b1 b2 ok tc infl]; cbn [k1 k2 s1 s2 sigok taskCount inflight] in *. subst ok.
+  assert (Hlen : length infl = (if fp then 1 else 0) + (if bp then 1 else 0))
+    by (destruct Hsh as [-> | ->]; destruct fp, bp; reflexivity).
+  unfold deliver, measure; cbn [k1 k2 s1 s2 sigok taskCount inflight]. rewrite Hj.
+  destruct (shape_pick _ _ _ _ _ _ _ Hsh Hj) as [(-> & -> & Hrest)|(-> & -> & Hrest)]; rewrite Hrest.
+  - (* the forward result *)
+    destruct (nth_error keys a1) as [kk|] eqn:Hkk; [|apply nth_error_None in Hkk; lia].
+    destruct (nth_error sigs b1) as [ss|] eqn:Hss; [|apply nth_error_None in Hss; lia].
+    unfold worker; cbn [fst snd]. rewrite Hkk, Hss.
+    eexists; split; [reflexivity|].
+    apply body_fwd; try assumption; try lia.
+    + intros Hb. apply Hadj. now right.
+    + rewrite HM. simpl off. rewrite !Nat.add_0_r, !Nat.sub_0_r. reflexivity.
+  - (* the backward result *)
+    destruct (nth_error keys a2) as [kk|] eqn:Hkk; [|apply nth_error_None in Hkk; lia].
+    destruct (nth_error sigs b2) as [ss|] eqn:Hss; [|apply nth_error_None in Hss; lia].
+    unfold worker; cbn [fst snd]. rewrite Hkk, Hss.
+    eexists; split; [reflexivity|].
+    apply body_bwd; try assumption; try lia.
+    + intros Hf. apply Hadj. now left.
+    + rewrite HM. simpl off. rewrite !Nat.sub_0_r. reflexivity.
+Qed.
+
+Lemma inv_init : 2 <= length sigs <= length keys -> inv (init keys sigs).
+Proof.
+  intros Hlen. exists true, true. unfold init; cbn [k1 k2 s1 s2 sigok taskCount inflight].
+  repeat match goal with |- _ /\ _ => split end; try solve [inv_side].
+  simpl off. rewrite !Nat.add_0_r, !Nat.sub_0_r.
+  replace (length keys - 1 + 1) with (length keys) by lia.
+  replace (length sigs - 1 + 1) with (length sigs) by lia.
+  rewrite !sub_full. reflexivity.
+Qed.
+
+Lemma inv_facts st :
+  inv st ->
+  k1 st < k2 st < length keys /\ s1 st < s2 st < length sigs /\ sigok st = true /\
+  1 <= length (inflight st) <= 2 /\ taskCount st = length (inflight st) /\ 2 <= measure st.
+Proof.
+  intros (fp & bp & Hk & Hk2 & Hs & Hs2 & Hok & Htc & Hsh & Hfb & Hadj & HM).
+  assert (Hlen : length (inflight st) = (if fp then 1 else 0) + (if bp then 1 else 0))
+    by (destruct Hsh as [-> | ->]; destruct fp, bp; reflexivity).
+  unfold measure. destruct fp, bp; try (specialize (Hfb eq_refl); discriminate); simpl in Hlen;
+    repeat split; try assumption; lia.
+Qed.
 
 End Invariant.
 
+(* ---------- all interleavings ---------- *)
+
+Section Schedules.
+Variables (keys : list K) (sigs : list Sg).
+Local Notation deliver := (deliver verify keys sigs).
+Local Notation run := (run verify keys sigs).
+Local Notation steps := (steps verify keys sigs).
+
+Lemma deliver_inv st j o : inv keys sigs st -> deliver j st = Some o -> post keys sigs (measure st) o.
+Proof.
+  intros Hinv Hd.
+  destruct (nth_error (inflight st) j) as [t|] eqn:Hj.
+  - destruct (deliver_post keys sigs st j t Hinv Hj) as (o' & Hd' & Hpost). congruence.
+  - unfold Multisig.deliver in Hd. rewrite Hj in Hd. discriminate.
+Qed.
+
+Lemma run_sound st b : inv keys sigs st -> run st b -> (b = true <-> matching keys sigs).
+Proof.
+  intros Hinv Hrun. induction Hrun as [st j b Hd|st j st' b Hd Hrun IH].
+  - exact (deliver_inv _ _ _ Hinv Hd).
+  - apply IH. exact (proj1 (deliver_inv _ _ _ Hinv Hd)).
+Qed.
+
+Lemma steps_inv c st st' :
+  inv keys sigs st -> steps c st st' -> inv keys sigs st' /\ c + measure st' = measure st.
+Proof.
+  intros Hinv Hs. induction Hs as [st|c st j st' st'' Hs IH Hd].
+  - split; [assumption | reflexivity].
+  - destruct (IH Hinv) as [Hinv' Hm]. destruct (deliver_inv _ _ _ Hinv' Hd) as [Hinv'' Hm']. split; [assumption|lia].
+Qed.
+
+(* the executable driver *)
+Lemma run_sched_correct fuel : forall sched st,
+  inv keys sigs st -> measure st <= fuel ->
+  run_sched verify keys sigs fuel sched st = Some (seq_match keys sigs).
+Proof.
+  induction fuel as [|fuel IH]; intros sched st Hinv Hm.
+  - pose proof (inv_facts keys sigs st Hinv). lia.
+  - pose proof (inv_facts keys sigs st Hinv) as (_ & _ & _ & Hlen & _ & _).
+    cbn [run_sched].
+    set (j := match sched with [] => 0 | x :: _ => x mod length (inflight st) end).
+    assert (Hj : j < length (inflight st)).
+    { subst j. destruct sched as [|x sched]; [lia|]. apply Nat.mod_upper_bound. lia. }
+    destruct (nth_error (inflight st) j) as [t|] eqn:Ht; [|apply nth_error_None in Ht; lia].
+    destruct (deliver_post keys sigs st j t Hinv Ht) as (o & Hd & Hpost). rewrite Hd.
+    destruct o as [st'|b|]; cbn [post] in Hpost.
+    + destruct Hpost as [Hinv' Hm']. apply IH; [assumption | lia].
+    + f_equal. apply eq_true_iff_eq. rewrite Hpost. symmetry. apply seq_match_iff_matching.
+    + contradiction.
+Qed.
+
+Lemma run_sched_run fuel : forall sched st b, run_sched verify keys sigs fuel sched st = Some b -> run st b.
+Proof.
+  induction fuel as [|fuel IH]; intros sched st b H; [discriminate|].
+  cbn [run_sched] in H.
+  set (j := match sched with [] => 0 | x :: _ => x mod length (inflight st) end) in H.
+  destruct (deliver j st) as [[st'|b'|]|] eqn:Hd; try discriminate.
+  - eapply run_step; [exact Hd | eapply IH; exact H].
+  - inv H. eapply run_done; exact Hd.
+Qed.
+
+End Schedules.
+
+(* ---------- the theorems ---------- *)
+
+(* EVERY schedule gives the sequential answer *)
+Theorem multisig_schedule_free keys sigs :
+  2 <= length sigs <= length keys ->
+  forall b, run verify keys sigs (init keys sigs) b -> b = seq_match keys sigs.
+Proof.
+  intros Hlen b Hrun. apply eq_true_iff_eq.
+  rewrite (run_sound keys sigs _ _ (inv_init keys sigs Hlen) Hrun). symmetry. apply seq_match_iff_matching.
+Qed.
+
+(* In every state reachable by c deliveries:
+   - between 1 and 2 tasks are in flight: the main loop never waits on `results` for ever, a send on `tasks`
+     (capacity 2) never blocks, and the results fit into `results` (capacity len(sigs) >= 2);
+   - taskCount is the number of tasks in flight; k1 < k2 and s1 < s2 (the direction test r.signum == s2 is
+     unambiguous, no counter is decremented below zero, all indices are in range);
+   - c + measure = length keys + 1 and measure >= 2: the loop is left after at most [length keys] deliveries;
+   - every result that can arrive is processed without a run-time panic. *)
+Theorem multisig_progress keys sigs :
+  2 <= length sigs <= length keys ->
+  forall c st, steps verify keys sigs c (init keys sigs) st ->
+    1 <= length (inflight st) <= 2 /\
+    taskCount st = length (inflight st) /\
+    k1 st < k2 st < length keys /\ s1 st < s2 st < length sigs /\
+    c + measure st = length keys + 1 /\ 2 <= measure st /\
+    (forall j, j < length (inflight st) ->
+       exists o, deliver verify keys sigs j st = Some o /\ o <> Crash /\
+                 (forall st', o = Running st' -> measure st' + 1 = measure st)).
+Proof.
+  intros Hlen c st Hs.
+  destruct (steps_inv keys sigs c _ _ (inv_init keys sigs Hlen) Hs) as [Hinv Hm].
+  pose proof (inv_facts keys sigs st Hinv) as (Hk & Hsg & _ & Hl & Htc & Hm2).
+  unfold measure at 2 in Hm. unfold init in Hm; cbn [k1 k2 taskCount] in Hm.
+  repeat split; try lia.
+  intros j Hj. destruct (nth_error (inflight st) j) as [t|] eqn:Ht; [|apply nth_error_None in Ht; lia].
+  destruct (deliver_post keys sigs st j t Hinv Ht) as (o & Hd & Hpost).
+  exists o. split; [assumption|]. split.
+  - intros ->. exact Hpost.
+  - intros st' ->. exact (proj2 Hpost).
+Qed.
+
+(* at most [length keys] results are received in any execution *)
+Corollary multisig_bounded keys sigs :
+  2 <= length sigs <= length keys ->
+  forall c st, steps verify keys sigs c (init keys sigs) st -> c + 1 <= length keys.
+Proof. intros Hlen c st Hs. pose proof (multisig_progress keys sigs Hlen c st Hs). lia. Qed.
+
+Lemma par_check_unfold sched keys sigs :
+  2 <= length sigs ->
+  par_check verify sched keys sigs = run_sched verify keys sigs (2 * length keys + 4) sched (init keys sigs).
+Proof. destruct sigs as [|s [|s' ss]]; simpl length; intros H; try lia. reflexivity. Qed.
+
+Theorem par_check_correct keys sigs :
+  2 <= length sigs <= length keys ->
+  forall sched, par_check verify sched keys sigs = Some (seq_match keys sigs).
+Proof.
+  intros Hlen sched. rewrite par_check_unfold by lia.
+  apply run_sched_correct; [now apply inv_init|].
+  unfold measure, init; cbn [k1 k2 taskCount]. lia.
+Qed.
+
+(* every schedule of the executable driver is an interleaving in the sense of [run] *)
+Lemma par_check_run keys sigs sched b :
+  2 <= length sigs -> par_check verify sched keys sigs = Some b -> run verify keys sigs (init keys sigs) b.
+Proof. intros Hlen H. rewrite par_check_unfold in H by lia. eapply run_sched_run; exact H. Qed.
+
+(* len(sigs) == 1 *)
+Theorem multisig_one_sig keys s : one_sig verify keys s = seq_match keys [s].
+Proof.
+  induction keys as [|k ks IH]; [reflexivity|].
+  cbn [one_sig existsb Multisig.seq_match]. destruct (verify k s); simpl; [now rewrite seq_match_nil | exact IH].
+Qed.
+
+Theorem par_check_total keys sigs :
+  1 <= length sigs <= length keys ->
+  forall sched, par_check verify sched keys sigs = Some (seq_match keys sigs).
+Proof.
+  intros Hlen sched. destruct (Nat.eq_dec (length sigs) 1) as [H1|H1].
+  - destruct sigs as [|s [|s' ss]]; try discriminate. cbn [par_check]. now rewrite multisig_one_sig.
+  - apply par_check_correct. lia.
+Qed.
+
+(* C18, schedules: the checker accepts exactly when the signatures can be matched to keys in order,
+   whatever the scheduling of its parallel verification *)
+Theorem multisig_accepts_iff_matching keys sigs :
+  1 <= length sigs <= length keys ->
+  forall sched, exists b, par_check verify sched keys sigs = Some b /\ (b = true <-> matching keys sigs).
+Proof.
+  intros Hlen sched. exists (seq_match keys sigs). split; [now apply par_check_total|].
+  apply seq_match_iff_matching.
+Qed.
+
+(* the same on the interleaving system itself: some execution exists, and every execution answers correctly *)
+Theorem multisig_run_iff_matching keys sigs :
+  2 <= length sigs <= length keys ->
+  (exists b, run verify keys sigs (init keys sigs) b) /\
+  (forall b, run verify keys sigs (init keys sigs) b -> (b = true <-> matching keys sigs)).
+Proof.
+  intros Hlen. split.
+  - exists (seq_match keys sigs). apply (par_check_run keys sigs []); [lia|]. now apply par_check_correct.
+  - intros b Hrun. exact (run_sound keys sigs _ _ (inv_init keys sigs Hlen) Hrun).
+Qed.
+
 End MultisigProofs.
+
+Arguments inv {K Sg} verify keys sigs st.
+
+(* ---------- examples (non-vacuity) ---------- *)
+
+Section Examples.
+Let ks := [1; 2; 2; 3; 4].          (* repeated key *)
+Let good := [2; 2; 4].
+Let swapped := [2; 4; 2].           (* valid signatures in the wrong order *)
+Let bad_mid := [2; 9; 4].           (* an invalid signature in the middle *)
+
+(* the specification, both formulations *)
+Example matching_ex : matching Nat.eqb ks good.
+Proof. apply m_skip, m_use, m_use, m_skip, m_use, m_nil; reflexivity. Qed.
+
+Example index_matching_ex : index_matching Nat.eqb ks good.
+Proof. apply matching_iff_index_matching, matching_ex. Qed.
+
+Example not_matching_ex : ~ matching Nat.eqb ks swapped /\ ~ matching Nat.eqb ks bad_mid.
+Proof. split; intros H; apply seq_match_iff_matching in H; vm_compute in H; discriminate. Qed.
+
+Example seq_match_ex :
+  seq_match Nat.eqb ks good = true /\ seq_match Nat.eqb ks swapped = false /\
+  seq_match Nat.eqb ks bad_mid = false.
+Proof. vm_compute. auto. Qed.
+
+(* accepted under several schedules *)
+Example par_accept_ex :
+  map (fun sched => par_check Nat.eqb sched ks good) [[]; [1; 1; 1; 1; 1]; [0; 1; 0; 1]; [1; 0; 0; 0]]
+  = [Some true; Some true; Some true; Some true].
+Proof. vm_compute. reflexivity. Qed.
+
+(* rejected under several schedules: wrong order; invalid signature in the middle *)
+Example par_reject_ex :
+  map (fun sched => par_check Nat.eqb sched ks swapped) [[]; [1; 1; 1; 1; 1]; [0; 1; 0; 1]]
+  = [Some false; Some false; Some false] /\
+  map (fun sched => par_check Nat.eqb sched ks bad_mid) [[]; [1; 1; 1; 1; 1]; [0; 1; 0; 1]]
+  = [Some false; Some false; Some false].
+Proof. vm_compute. auto. Qed.
+
+(* two schedules that verify different (key index, signum) pairs and still agree: the second one even finds
+   that key #2 verifies signature #2, which the first never tries *)
+Example different_traces_ex :
+  trace_sched Nat.eqb ks swapped 14 [] (init ks swapped) = [(0, 0); (4, 2); (1, 0); (3, 2)] /\
+  trace_sched Nat.eqb ks swapped 14 [1; 1; 1; 1] (init ks swapped) = [(4, 2); (3, 2); (2, 2); (1, 1)] /\
+  par_check Nat.eqb [] ks swapped = par_check Nat.eqb [1; 1; 1; 1] ks swapped.
+Proof. vm_compute. auto. Qed.
+
+Example different_traces_accept_ex :
+  trace_sched Nat.eqb ks good 14 [] (init ks good) = [(0, 0); (4, 2); (1, 0); (3, 1); (2, 1)] /\
+  trace_sched Nat.eqb ks good 14 [0; 1; 0; 1] (init ks good) = [(0, 0); (1, 0); (4, 2); (2, 1)] /\
+  par_check Nat.eqb [] ks good = par_check Nat.eqb [0; 1; 0; 1] ks good.
+Proof. vm_compute. auto. Qed.
+
+(* hypotheses of the theorems are satisfiable: a run, a reachable state with two tasks in flight and (after a
+   `continue`) one with a single task in flight *)
+Example run_ex : run Nat.eqb ks good (init ks good) true.
+Proof. apply (par_check_run _ _ _ ks good [0; 1; 0; 1] true); [simpl; lia | vm_compute; reflexivity]. Qed.
+
+Example steps_ex :
+  steps Nat.eqb ks good 2 (init ks good) (mk_pstate 2 4 1 2 true 2 [(4, 2); (2, 1)]).
+Proof.
+  eapply steps_S with (j := 1); [eapply steps_S with (j := 0); [apply steps_0|] |]; vm_compute; reflexivity.
+Qed.
+
+Example steps_continue_ex :
+  steps Nat.eqb [1; 2] [1; 2] 1 (init [1; 2] [1; 2]) (mk_pstate 0 1 0 1 true 1 [(1, 1)]).
+Proof. eapply steps_S with (j := 0); [apply steps_0|]. vm_compute. reflexivity. Qed.
+
+Example one_sig_ex : par_check Nat.eqb [] ks [3] = Some true /\ par_check Nat.eqb [] ks [7] = Some false.
+Proof. vm_compute. auto. Qed.
+End Examples.
